@@ -122,10 +122,14 @@ func (t Table) DDL() []string {
 }
 
 func (t Table) Migrate(ctx context.Context, pg Conn) error {
-	for _, stmt := range t.DDL() {
-		if _, err := pg.Exec(ctx, stmt); err != nil {
-			return fmt.Errorf("table %q stmt %q: %w", t.Name, stmt, err)
+	// create the table, add the columns an already existing table lacks,
+	// and only then create the indexes (they may name the added columns)
+	stmts := t.DDL()
+	if len(stmts) > 0 {
+		if _, err := pg.Exec(ctx, stmts[0]); err != nil {
+			return fmt.Errorf("table %q stmt %q: %w", t.Name, stmts[0], err)
 		}
+		stmts = stmts[1:]
 	}
 	diff, err := Diff(ctx, pg, t.Name, t.Columns)
 	if err != nil {
@@ -140,6 +144,11 @@ func (t Table) Migrate(ctx context.Context, pg Conn) error {
 		)
 		if _, err := pg.Exec(ctx, q); err != nil {
 			return fmt.Errorf("adding column %s/%s: %w", t.Name, c.Name, err)
+		}
+	}
+	for _, stmt := range stmts {
+		if _, err := pg.Exec(ctx, stmt); err != nil {
+			return fmt.Errorf("table %q stmt %q: %w", t.Name, stmt, err)
 		}
 	}
 	return nil
